@@ -72,6 +72,14 @@ def extra_cases(tier):
                 for seq in ([2], [0], [2, 1]):
                     out.append(dict(kind='pop', pop=pop, n_ids=2, prog=head + [['set_n_ids', a] for a in seq],
                                     enumerated=True))
+    # names given and reset to the defaults again, on models whose parameters form an (individuals x dimensions) table
+    for pop in (dict(kind='hetero', n_dim=2), dict(kind='hetero', n_dim=3),
+                dict(kind='comp', parts=[dict(kind='hetero', n_dim=2), dict(kind='gauss', n_dim=2, centered=True)]),
+                dict(kind='comp', parts=[dict(kind='pooled', n_dim=2), dict(kind='hetero', n_dim=2)])):
+        for n_ids in (2, 3):
+            for prog in ([['set_parameter_names', 0]], [['set_parameter_names', 1], ['set_parameter_names', 0]],
+                         [['set_n_ids', n_ids], ['set_parameter_names', 0]]):
+                out.append(dict(kind='pop', pop=pop, n_ids=n_ids, prog=prog, enumerated=True))
     # hierarchical likelihoods over a population model that is still configured for ONE individual when it is handed
     # over (heterogeneous part, plain and inside a reduced model with a parameter fixed by name), 2-3 individuals
     for n_ids in (2, 3):
@@ -332,15 +340,25 @@ def check(case):
         # reconfiguration program
         cur_pop_n_ids = n_ids
         fixed_names = set()
+        cur_dims = None               # None = default dimension names
+        selection_changed = False
         for step, (op, arg) in enumerate(s['prog']):
             with case.clause('reconfigure'):
                 if op == 'set_n_ids':
                     cur_pop_n_ids = 1 + arg % 4
                     m.set_n_ids(cur_pop_n_ids)
                 elif op == 'set_dim_names':
-                    m.set_dim_names(['dim%d_%d' % (step, d) for d in range(m.n_dim())] if arg % 3 else None)
+                    cur_dims = ['dim%d_%d' % (step, d) for d in range(m.n_dim())] if arg % 3 else None
+                    m.set_dim_names(None if cur_dims is None else list(cur_dims))
                 elif op == 'set_parameter_names':
                     m.set_parameter_names(['parameter %d renamed in step %d (long name)' % (k, step) for k in range(m.n_parameters())] if arg % 3 else None)
+                    if not arg % 3 and not isinstance(m, chi.ReducedPopulationModel) and not selection_changed \
+                            and not popgen.has(pop, 'red') and not popgen.has(pop, 'cov'):
+                        # names reset to the defaults: every name labels its own (parameter, dimension) entry again
+                        # (covariate models fall back to the coefficient names of their covariate model: not stated)
+                        dn = cur_dims if cur_dims is not None else [str(v) for v in m.get_dim_names()]
+                        case.equal(list(m.get_parameter_names()), ref.pop_names(pop, cur_pop_n_ids, dn),
+                                   'default parameter names after set_parameter_names(None) at n_ids=%d' % cur_pop_n_ids)
                 elif op == 'fix':
                     if not isinstance(m, chi.ReducedPopulationModel):
                         m = chi.ReducedPopulationModel(m)
@@ -364,6 +382,7 @@ def check(case):
                     if isinstance(target, chi.CovariatePopulationModel) and not isinstance(m, chi.ReducedPopulationModel):
                         base_n = target._population_model.n_parameters() // target.n_dim()
                         target.set_population_parameters([[arg % base_n, (arg // 7) % target.n_dim()]])
+                        selection_changed = True
                 elif op == 'rejected_selection':
                     # a configuration call that is rejected changes nothing (the invariants below run on the model
                     # that saw it)
